@@ -36,12 +36,20 @@ VOCAB = [
     "s = 'abc&", "  &def'", "s = 'it''s'", "x = 2 ! c & d", "x = 3 ; y = 4", "call m()", "#ifdef A", "#else", "#endif", "#define Q 1",
     "!dir$ ivdep", "!$ x = 5", "x = 1 & ! c", "  ! c in continuation", "s = \"say \"\"hi\"\"\" // '!'", "x = Q", "#if defined(A) && \\",
     "    defined(C)", "s = 'back\\'", "s = '&' // \"&\"", "y = x & ! 'q", "  &   + 1 ! \"", "#undef Q",
-    "s = \"a & ! b\"", "! plain comment",
+    "s = \"a & ! b\"", "! plain comment", "s = 'abc&  ", "&def' ! c",
 ]
 
 LITS = ["'a ! b'", "\"x & y\"", "'it''s'", "\"say \"\"hi\"\"\"", "'a // b'", "'!'", "'&'", "\"'\"", "'\"'", "'plain'", "\"#if 0\"", "'! &'",
         "'a&b'", "\"!$omp\"", "'stop &  ! now'", "\"a & ! b\"", "'x &'"]
 COMMENTS = ["! c", "! don't", "! \"x", "! a & b", "!! double", "!c$", "! #ifdef A", "!$omp parallel", "!$acc kernels", "!dir$ ivdep", "!$ y = 1"]
+
+
+# headers included (two levels deep) from the Fortran file: free-form Fortran text, whatever their extension
+INC_FILES = {
+    "inc.h": "  call m_inc()\n#include \"inc2.h\"\n! trailing comment: isn't code\n",
+    "inc2.h": "! second level: an ordinary comment, isn't counted\n  call m_inc2()\n      ! indented comment\n#define FROM_INC2\n"
+              "! c\n  s = 'a' // 'b' ! concatenation, not a C++ comment\n\n  x = 1 &\n    ! comment inside\n    + 2\n",
+}
 
 
 def bounds(tier):
@@ -56,7 +64,8 @@ def exhaustive(tier):
 def required_cells(tier):
     return ["comment", "comment-in-continuation", "blank-in-continuation", "continuation", "leading-&", "literal-continued",
             "doubled-quote", "special-char-in-literal", "sentinel", "directive", "comment-after-&", "selection-compared",
-            "define-sets>=4", "class:E", "class:R", "include", "all-code-lines-compared", "directive-inside-continuation"]
+            "define-sets>=4", "class:E", "class:R", "include", "all-code-lines-compared", "directive-inside-continuation",
+            "comment-in-literal-continuation", "blank-in-literal-continuation", "nested-include"]
 
 
 def gfortran(args, cwd):
@@ -97,9 +106,10 @@ def rand_body(rng, depth=0):
             nm = rng.choice(["A", "C"])
             out += ["x = 1 &", f"#ifdef {nm}", "  + 2 &" if rng.random() < 0.5 else "  & + 2 &", "#else", "  + 3 &", "#endif", "  + 4"]
         elif x < 0.7:
-            out.append("s = 'abc&")
-            if rng.random() < 0.3:
-                out.append("  ! not allowed inside literal? (comment line)") if False else None
+            # character context continued: '&' may be followed by blanks, comment and blank lines may sit in between
+            out.append("s = 'abc&" + rng.choice(["", "", "  ", "\t"]))
+            for _ in range(rng.choice([0, 0, 1, 2])):
+                out.append(rng.choice(["  ! comment between the halves", "", "! it's", "   "]))
             out.append("   &def' // " + rng.choice(LITS))
         elif x < 0.9 and depth < 3:
             kind = rng.choice(["ifdef", "ifndef", "if", "if-else", "if-elif"])
@@ -161,9 +171,14 @@ def check_text(ctx, text, work, cls, defsets):
             pass
     with open(path, "w") as f:
         f.write(text)
-    with open(os.path.join(work, "inc.h"), "w") as f:
-        f.write("  call m_inc()\n")
-    rc, out, err = gfortran(["-cpp", "-fsyntax-only", "-I", work, path], work)
+    # the headers live outside the code base: a member file with a C extension is, by design, parsed once as C
+    # before any translation unit is processed; only non-member headers inherit the language of their includer
+    hdr = work + "-hdr"
+    os.makedirs(hdr, exist_ok=True)
+    for name, htext in INC_FILES.items():
+        with open(os.path.join(hdr, name), "w") as f:
+            f.write(htext)
+    rc, out, err = gfortran(["-cpp", "-fsyntax-only", "-I", hdr, path], work)
     acc.hook("H-gfortran")
     if rc != 0 or err.strip():
         acc.excluded("gfortran-rejects", cls=cls)
@@ -194,14 +209,14 @@ def check_text(ctx, text, work, cls, defsets):
     if not problems and "#" in text:
         markers = {int(m.group(1)): m.group(0) for m in re.finditer(r"call m_(\d+)\(\)", text)}
         for ds in defsets:
-            rc, out, err = gfortran(["-cpp", "-E", "-P", "-I", work] + ds + [path], work)
+            rc, out, err = gfortran(["-cpp", "-E", "-P", "-I", hdr] + ds + [path], work)
             acc.hook("H-gfortran")
             if rc != 0 or err.strip():
                 continue
             live = {int(x) for x in re.findall(r"call m_(\d+)\(\)", out)}
             inc_live = "call m_inc()" in out
             try:
-                state, _ = cbi.run_find(work, {"p": [cbi.entry(path, [d[2:] for d in ds], [work])]})
+                state, _ = cbi.run_find(work, {"p": [cbi.entry(path, [d[2:] for d in ds], [hdr])]})
                 used = cbi.used_lines(state, path, "p")
             except Exception as e:
                 problems.append({"kind": "exception-find", "defines": ds, "observed": f"{type(e).__name__}: {e}"})
@@ -212,7 +227,7 @@ def check_text(ctx, text, work, cls, defsets):
                 problems.append({"kind": "conditional-selection", "defines": ds, "expected": sorted(live), "observed": sorted(got)})
                 break
             # every counted non-directive line: used iff gfortran keeps text on that physical line
-            rc2, out2, err2 = gfortran(["-cpp", "-E", "-I", work] + ds + [path], work)
+            rc2, out2, err2 = gfortran(["-cpp", "-E", "-I", hdr] + ds + [path], work)
             acc.hook("H-gfortran")
             if rc2 == 0 and not err2.strip():
                 kept = set()
@@ -237,10 +252,24 @@ def check_text(ctx, text, work, cls, defsets):
                     break
             if '#include "inc.h"' in text:
                 cells.add("include")
-                inc_used = bool(state.get_tree(os.path.join(work, "inc.h")) and cbi.used_lines(state, os.path.join(work, "inc.h"), "p"))
+                inc_used = bool(state.get_tree(os.path.join(hdr, "inc.h")) and cbi.used_lines(state, os.path.join(hdr, "inc.h"), "p"))
                 if inc_used != inc_live:
                     problems.append({"kind": "include-selection", "defines": ds, "expected": inc_live, "observed": inc_used})
                     break
+                if inc_live:
+                    # the headers are read as free-form Fortran at every nesting level
+                    for name, htext in INC_FILES.items():
+                        t2 = state.get_tree(os.path.join(hdr, name))
+                        if t2 is None:
+                            problems.append({"kind": "included-header-not-parsed", "header": name})
+                            continue
+                        hv, hcounted, hdir, _ = fscan.scan(htext)
+                        hseen = sorted(ln for node in t2.walk() if isinstance(node, preprocessor.CodeNode) for ln in node.lines)
+                        cells.add("nested-include")
+                        if hseen != hcounted:
+                            problems.append({"kind": "counted-set-of-included-header", "header": name, "expected": hcounted, "observed": hseen})
+                    if problems:
+                        break
         if len(defsets) >= 4:
             cells.add("define-sets>=4")
     nontriv = text if (notes & {"comment", "continuation", "special-char-in-literal", "sentinel", "literal-continued"} and "directive" in notes) else None
@@ -263,7 +292,7 @@ def still_bad(text, work):
     path = os.path.join(sdir, "shrink.f90")
     with open(path, "w") as f:
         f.write(text)
-    rc, out, err = gfortran(["-cpp", "-fsyntax-only", "-I", work, path], sdir)
+    rc, out, err = gfortran(["-cpp", "-fsyntax-only", "-I", work + "-hdr", path], sdir)
     if rc != 0 or err.strip():
         return False
     try:
